@@ -37,6 +37,9 @@ let dispatch fn args = match fn, args with
     let rep = run_report prep Plain h cs in
     let pc c = match int_of_n c with 0 -> "p" | 1 | 2 -> "o" | k -> string_of_int k in
     String.concat "|" (List.map (fun (r, pr) -> hex_of_n r ^ "=" ^ String.concat "," (List.map pc pr)) rep)
+  | "prepared", [tbl; pw] ->
+    (* the password bytes of an AES-256 password: Model.prepared127 *)
+    (match prepared127 (mk_prep tbl) (bytes_of_hex pw) with Some x -> hex_of_bytes x | None -> "!")
   | "setup_key", [nb; ow; us; pk; be; hp] ->
     (match setup_key (bool_of_str nb) (vres_of ow) (vres_of us) (bool_of_str pk) (bool_of_str be) (bool_of_str hp) with
      | OpenOwner | OpenUser -> "open" | EOwnerRequired -> "owner-required" | EWrongPassword -> "wrong-password"
